@@ -551,7 +551,11 @@ impl Array {
         // else (broadcast)
         } else {
             for _ in 0..leading_length {
-                let output_offset = flatten_indices(&indices, &output_dimensions);
+                let output_offset = slice_offset(
+                    &indices[..leading_count],
+                    &output_dimensions[..leading_count],
+                    output_group_length,
+                );
                 let output_slice =
                     &mut output_values[output_offset..output_offset + output_group_length];
 
